@@ -98,8 +98,9 @@ def gate_oracle(args):
             return f"{name}: tensor differs from the matrix"
         return None
     a, b = args["a"], args["b"]
-    for (a0, b0) in args.get("before", []):  # history: the same gate object was placed elsewhere before
+    for (a0, b0) in args.get("before", []):  # history: the same gate object was placed elsewhere before — and every form was read there
         g.set_sites(a0, b0)
+        _ = (g.matrix, g.tensor, getattr(g, "generator", None), getattr(g, "mpo_tensors", None))
     g.set_sites(a, b)
     # tensor: the matrix placed on (a, b) in the given orientation, indexed by (site min, site max)
     lo, hi = min(a, b), max(a, b)
